@@ -19,5 +19,5 @@ ASSUMPTIONS = ["the tokenizer builds the same tree for known and unknown tags (C
 def run(project, rep):
     schema = Schema(project)
     schema.check_floors()
-    S.m2_update_args(schema, rep)
-    U.u_rules(schema, rep)
+    rep.run(S.m2_update_args, schema, rep)
+    rep.run(U.u_rules, schema, rep)
